@@ -125,7 +125,8 @@ fn materialise(krate: &Path, k: usize, l: &Layout) -> Written {
         }
     };
     match l.kind {
-        0..=2 if l.shorthand => write!(invocation, "wit_bindgen::generate!(\"w\" in \"{}\");", paths[0].display()).unwrap(),
+        // (without `generate_all` the macro demands a `with` entry for interfaces of other packages)
+        0..=2 if l.shorthand && uses.is_empty() => write!(invocation, "wit_bindgen::generate!(\"w\" in \"{}\");", paths[0].display()).unwrap(),
         0..=2 => write!(invocation, "wit_bindgen::generate!({{ world: \"w\", {}, generate_all }});", path_list(&paths)).unwrap(),
         // several main packages: the world has to be qualified
         3 => write!(invocation, "wit_bindgen::generate!({{ world: \"{pkg}/w\", {}, generate_all }});", path_list(&paths)).unwrap(),
